@@ -314,3 +314,122 @@ pub proof fn lemma_ms_yielded_is_piece(v: Seq<&str>, s: Seq<char>, texts: Set<Se
     assert(ms_yields(v, v[j]@));
     assert(texts.contains(v[j]@));
 }
+
+// ---- the two descriptions of `str::split` agree ----
+
+pub proof fn lemma_ms_first_sep(s: Seq<char>, c: char)
+    ensures
+        0 <= ms_first_sep(s, c) <= s.len(),
+        forall |k: int| 0 <= k < ms_first_sep(s, c) ==> s[k] != c,
+        ms_first_sep(s, c) < s.len() ==> s[ms_first_sep(s, c)] == c,
+    decreases s.len(),
+{
+    if s.len() == 0 || s[0] == c {
+    } else {
+        lemma_ms_first_sep(s.skip(1), c);
+        assert forall |k: int| 0 <= k < ms_first_sep(s, c) implies s[k] != c by {
+            if k > 0 { assert(s.skip(1)[k - 1] == s[k]); }
+        }
+        if ms_first_sep(s, c) < s.len() {
+            assert(s.skip(1)[ms_first_sep(s.skip(1), c)] == s[ms_first_sep(s, c)]);
+        }
+    }
+}
+
+/// a piece of the string behind the first separator is a piece of the whole string, and conversely
+pub proof fn lemma_ms_piece_shift(s: Seq<char>, c: char, i: int, a: int, b: int)
+    requires
+        0 <= i < s.len(),
+        s[i] == c,
+        0 <= a <= b <= s.len() - i - 1,
+    ensures
+        ms_piece_at(s.skip(i + 1), c, a, b) <==> ms_piece_at(s, c, a + i + 1, b + i + 1),
+        s.skip(i + 1).subrange(a, b) == s.subrange(a + i + 1, b + i + 1),
+{
+    let t = s.skip(i + 1);
+    assert(t.subrange(a, b) =~= s.subrange(a + i + 1, b + i + 1));
+    if ms_piece_at(t, c, a, b) {
+        assert forall |k: int| a + i + 1 <= k < b + i + 1 implies s[k] != c by { assert(t[k - i - 1] == s[k]); }
+        if a > 0 { assert(t[a - 1] == s[a + i]); }
+        if b < t.len() { assert(t[b] == s[b + i + 1]); }
+    }
+    if ms_piece_at(s, c, a + i + 1, b + i + 1) {
+        assert forall |k: int| a <= k < b implies t[k] != c by { assert(t[k] == s[k + i + 1]); }
+        if a > 0 { assert(t[a - 1] == s[a + i]); }
+        if b < t.len() { assert(t[b] == s[b + i + 1]); }
+    }
+}
+
+/// every element of the recursive split is a maximal separator-free substring
+pub proof fn lemma_ms_split_sound(s: Seq<char>, c: char, p: Seq<char>)
+    requires
+        ms_split(s, c).contains(p),
+    ensures
+        ms_is_piece(s, c, p),
+    decreases s.len(),
+{
+    let i = ms_first_sep(s, c);
+    lemma_ms_first_sep(s, c);
+    let k = choose |k: int| 0 <= k < ms_split(s, c).len() && ms_split(s, c)[k] == p;
+    if i < s.len() {
+        let t = s.skip(i + 1);
+        if k == 0 {
+            assert(ms_piece_at(s, c, 0, i));
+            assert(s.subrange(0, i) == p);
+        } else {
+            assert(ms_split(t, c)[k - 1] == p);
+            lemma_ms_split_sound(t, c, p);
+            let (a, b) = choose |a: int, b: int| ms_piece_at(t, c, a, b) && #[trigger] t.subrange(a, b) == p;
+            lemma_ms_piece_shift(s, c, i, a, b);
+            assert(ms_piece_at(s, c, a + i + 1, b + i + 1) && s.subrange(a + i + 1, b + i + 1) == p);
+        }
+    } else {
+        assert(ms_piece_at(s, c, 0, s.len() as int));
+        assert(s.subrange(0, s.len() as int) =~= s);
+    }
+}
+
+/// every maximal separator-free substring is an element of the recursive split
+pub proof fn lemma_ms_split_complete(s: Seq<char>, c: char, p: Seq<char>)
+    requires
+        ms_is_piece(s, c, p),
+    ensures
+        ms_split(s, c).contains(p),
+    decreases s.len(),
+{
+    let i = ms_first_sep(s, c);
+    lemma_ms_first_sep(s, c);
+    let (a, b) = choose |a: int, b: int| ms_piece_at(s, c, a, b) && #[trigger] s.subrange(a, b) == p;
+    if i < s.len() {
+        let t = s.skip(i + 1);
+        if a <= i {
+            if a > 0 { assert(s[a - 1] != c); }
+            if b > i { assert(s[i] != c); }
+            if b < i { assert(s[b] == c); }
+            assert(a == 0 && b == i);
+            assert(ms_split(s, c)[0] == p);
+        } else {
+            lemma_ms_piece_shift(s, c, i, a - i - 1, b - i - 1);
+            assert(ms_piece_at(t, c, a - i - 1, b - i - 1) && t.subrange(a - i - 1, b - i - 1) == p);
+            lemma_ms_split_complete(t, c, p);
+            let k = choose |k: int| 0 <= k < ms_split(t, c).len() && ms_split(t, c)[k] == p;
+            assert(ms_split(s, c)[k + 1] == p);
+        }
+    } else {
+        if a > 0 { assert(s[a - 1] != c); }
+        if b < s.len() { assert(s[b] != c); }
+        assert(s.subrange(a, b) =~= s);
+        assert(ms_split(s, c)[0] == p);
+    }
+}
+
+/// the recursive and the declarative description of `split` agree
+pub proof fn lemma_ms_split_pieces(s: Seq<char>, c: char)
+    ensures
+        forall |p: Seq<char>| #[trigger] ms_split(s, c).contains(p) <==> ms_is_piece(s, c, p),
+{
+    assert forall |p: Seq<char>| #[trigger] ms_split(s, c).contains(p) <==> ms_is_piece(s, c, p) by {
+        if ms_split(s, c).contains(p) { lemma_ms_split_sound(s, c, p); }
+        if ms_is_piece(s, c, p) { lemma_ms_split_complete(s, c, p); }
+    }
+}
